@@ -520,6 +520,12 @@ func main() {
 		}
 	}
 
+	// every listed open finding of this property is named on every run
+	for _, k := range known {
+		if k.Property == id && k.Status == "open" && !knownPrinted[k.Sig] {
+			fmt.Printf("KNOWN-FINDING: property=%s %s [sig=%s] (listed; its replay was not re-run or did not reproduce in this run)\n", id, k.What, k.Sig)
+		}
+	}
 	wall := time.Since(start).Seconds()
 	ev := merged.evidence(id, mode, seed, plan, wall, len(violations), fuzzNotes, known, knownPrinted, inconclusive)
 	os.MkdirAll(filepath.Join(verifRoot, "evidence"), 0o755)
